@@ -3,7 +3,7 @@
    instantiated by finite tables that the harness recorded from the real calls; a lookup that misses
    yields a value that cannot equal the observation, so a model that asks the oracle a different
    question than the code did fails the case. *)
-From NV Require Import Base Message.
+From NV Require Import Base Message MessageProofs.
 From Coq Require Import PrimFloat.
 
 Definition md5_tbl := list (bytes * zstr).
@@ -39,7 +39,6 @@ Definition addr_of (m : msg) : addr := mkAddr (m_src m) (m_dst m) (m_prio m) (m_
 Definition chk_key (c : msg * fstr_tbl * bytes) : bool :=
   let '(m, ft, k) := c in res_eqb bytes_eqb (hash_key (lookup_fstr ft) m) (Some k).
 (* decoder output conforms to the key signature its own field types give (text only for STRING_* types) *)
-Definition ty_num (t : tyv) : Z := match t with TyEnum n | TyList n => n end.
 Definition kind_of_type (t : tyv) : kkind :=
   let n := ty_num t in if (n =? 15) || (n =? 16) || (n =? 17) then KText else KNum.
 Definition msg_sig (m : msg) : list kkind := map (fun f => kind_of_type (f_type f)) (filter f_pk (m_fields m)).
@@ -62,7 +61,18 @@ Definition chk_units (c : (prefs * msg) * (round_tbl * deg_tbl) * option msg) : 
 (* ---------------- C15 *)
 Definition chk_to_tree (c : msg * option jtree) : bool := res_eqb jeqb (to_tree (fst c)) (snd c).
 Definition chk_of_tree (c : jtree * option msg) : bool := res_eqb msg_eqb (of_tree (fst c)) (snd c).
-(* of_tree (to_tree m) carries the renderings of m's values (the C15_fields statement, evaluated) *)
+(* hypotheses of C15_fields / C15_reencode on real decoder output: well-formed byte strings, and (unless a
+   non-finite double is present: F-nan-json) every component the library's encoders read is carried exactly *)
+Definition chk_shape (m : msg) : bool :=
+  msg_wf m && implb (json_ok m) (forallb (reads_exact lib_reads) (m_fields m)).
+(* to_json then from_json, evaluated: (message, tree observed, parsed message observed) *)
+Definition chk_json (c : msg * option (jtree * msg)) : bool :=
+  let '(m, o) := c in
+  match to_tree m, o with
+  | Ok t, Some (ot, om) => jeqb t ot && res_eqb msg_eqb (of_tree ot) (Some om) && chk_shape m
+  | Err _, None => true
+  | _, _ => false
+  end.
 Definition chk_dump_ids (c : list bytes * list bytes) : bool :=
   res_eqb (list_eqb bytes_eqb) (split_ids (fst c)) (Some (snd c)).
 (* ((config, history of (addressing, message from the per-PGN decoder)), tables, (returned messages, dump lines)) *)
